@@ -287,6 +287,21 @@ type BadTop3 struct {
 	D map[string]*BadD `frugal:"1,optional,map<string:BadD>"`
 }
 
+// third family: the cycle runs through a by-value struct field and a list
+type CycP struct {
+	V CycV `frugal:"1,default,CycV"`
+}
+
+type CycV struct {
+	L []*CycP `frugal:"1,default,list<CycP>"`
+	X *Bad    `frugal:"2,optional,Bad"`
+}
+
+// valid type that reuses CycV's neighbours
+type CycR struct {
+	P *CycP `frugal:"1,optional,CycP"`
+}
+
 // Valid lists the valid static struct types (pointers to zero values).
 var Valid = []interface{}{
 	&Leaf{}, &LeafReq{}, &Wide{}, &Node{}, &NodeU{}, &NodeOld{}, &MutA{}, &MutB{}, &MutC{},
